@@ -163,10 +163,17 @@ def check_qualified(q: exp.Expr, D: Dialect) -> list[tuple[str, str]]:
             visible |= sources_of(s)
             s = s.find_ancestor(exp.Select)
         # set-operation ORDER BY: columns refer to output names of the operands
-        in_order = c.find_ancestor(exp.Order, exp.Distinct) is not None and c.find_ancestor(exp.Window) is None
+        # ORDER BY, DISTINCT ON, and - in dialects that allow it - GROUP BY / HAVING / QUALIFY may name the query's
+        # own output columns; such a reference stays table-less
+        clause = None
+        node = c
+        while node is not None and not isinstance(node, exp.Select) and not isinstance(node, exp.SetOperation):
+            if isinstance(node, (exp.Order, exp.Distinct, exp.Having, exp.Qualify, exp.Group)) and isinstance(node.parent, (exp.Select, exp.SetOperation)):
+                clause = node
+            node = node.parent
+        in_order = clause is not None
         if not c.table:
-            # ORDER BY (and DISTINCT ON, which follows ORDER BY's rules) may name the query's own output columns
-            holder = c.find_ancestor(exp.Order, exp.Distinct).parent if in_order else None
+            holder = clause.parent if in_order else None
             names = []
             if holder is not None and hasattr(holder, "named_selects"):
                 try:
